@@ -257,6 +257,33 @@ func runC05(c *Ctx) {
 		c.verdict(len(bad) == 0 && len(good) >= 4, c.nm(fn)+" | provenance of returned filter", c.P.Pos(fn.Pos()), "all non-nil returns derive from cache / FilterDB / targetFilter", "a returned filter has another origin at "+join(c.ats(bad)), c.ats(append(good, bad...))...)
 	})
 
+	c.rule("C05.P1", "GetCFilter serialises network fetches: the second cache lookup, the range preparation and the query all run with mtxCFilter held, so two callers cannot fetch (and validate against) the same range concurrently and the re-check after the lock sees the other caller's result", func() {
+		fn := c.fn(fnGetCF)
+		res := c.lockResults()
+		key := lockKey{cs("mtxCFilter")}
+		getCache := c.method("neutrino", "ChainService", "getFilterFromCache")
+		prep := c.method("neutrino", "ChainService", "prepareCFiltersQuery")
+		q := c.method("query", "WorkManager", "Query")
+		var bad []string
+		sites := find(fn, callTo(prep, q))
+		for _, s := range sites {
+			if res[fn].mustHold[s][key] != "W" {
+				bad = append(bad, describeCall(s)+" at "+c.at(s)+" without mtxCFilter")
+			}
+		}
+		// a cache lookup happens under the lock before the query
+		under := 0
+		for _, s := range find(fn, callTo(getCache)) {
+			if res[fn].mustHold[s][key] == "W" {
+				under++
+			}
+		}
+		if under < 1 {
+			bad = append(bad, "no cache re-check under mtxCFilter before fetching")
+		}
+		c.verdict(len(bad) == 0 && len(sites) >= 2, c.nm(fn)+" | fetch path under mtxCFilter", c.P.Pos(fn.Pos()), "prepare + query + cache re-check under the mutex", join(bad), c.ats(sites)...)
+	})
+
 	c.rule("C05.W1", "only the validating handler feeds the filter cache and the persistent filter store: FilterCache.Put only in putFilterToCache, called only from handleResponse; AddItem only from handleResponse; FilterDB.PutFilters only as the batch writer's PutItems (wired in NewChainService)", func() {
 		c.whoMay("ChainService.FilterCache.Put", filterCachePut(), []string{"(*neutrino.ChainService).putFilterToCache"}, 1)
 		c.whoMay("ChainService.putFilterToCache", callTo(putCache()), []string{fnCFResp}, 1)
